@@ -125,6 +125,14 @@ def check(lp, J, logs, k, get_type, prefix="C02", sampled=False, tracer_residue=
                       "msg": "logged trace of %s matches no completed admitted call at that moment (duplicate, early, late, or not admitted)" % fname(f)})
             continue
         c = cands[0]
+        if len(cands) > 1:
+            # several calls of the same function completed at this journal position (a callee
+            # returned and its caller then unwound): under sampling either may be the logged one
+            scored = []
+            for n_c, cand in enumerate(cands):
+                pr = faithful(prefix, lp, cand, lp.funcs[cand.fid], tr, gt, sampled)
+                scored.append((sum(1 for x in pr if not x.get("cause")), len(pr), n_c, cand))
+            c = min(scored, key=lambda t: t[:3])[3]
         taken.add(c.cid)
         matched.append((c, tr))
         if last_key is not None and c.end_key < last_key:
@@ -216,16 +224,29 @@ def faithful(prefix, lp, c, f, tr, gt, sampled):
             cause_of["yield-cover"] = "coroutine_await_suspension"
     if f["body"] == "gen" and c.at_yield and c.end == "X":
         cause_of.setdefault("yield-cover", "generator_exit_at_yield")
-    if sampled and f["body"] in ("gen", "coro") and (len(c.yields) + c.awaits) > 0:
-        # F5: trace started at a later resumption j >= 1
-        n_susp = len(c.yields) if f["body"] == "gen" else c.awaits
-        for j in range(1, n_susp + 1):
-            vals = state_at_resumption(c, f, j) if f["body"] == "gen" else dict(c.params)
+    if sampled and f["body"] == "gen" and c.yields:
+        # F5: trace started at a later resumption j >= 1 (after the j-th yield)
+        for j in range(1, len(c.yields) + 1):
+            vals = state_at_resumption(c, f, j)
             a_j = {n: T.tnorm(gt(vals[n])) for n in names}
-            y_j = T.union_norm([T.tnorm(gt(v)) for _, v in c.yields[j:]]) if f["body"] == "gen" else None
-            if got_args == a_j and (got_y == y_j or f["body"] == "coro") and got_ret == exp_ret:
+            y_j = T.union_norm([T.tnorm(gt(v)) for _, v in c.yields[j:]])
+            if got_args == a_j and got_y == y_j and got_ret == exp_ret:
                 for kname, _ in problems:
                     cause_of[kname] = "sampled_midlife_start"
+                break
+    if sampled and f["body"] == "coro":
+        # F5 for coroutines: trace started at a later resumption; arguments as after some prefix of
+        # the re-bindings, yield type at most the suspension token (F2)
+        tok_only = got_y is None or all(m == "dst.world.rt._Token" for m in T.members(got_y))
+        for p in range(0, len(c.rebinds) + 1):
+            vals = dict(c.params)
+            for _, pn, v in c.rebinds[:p]:
+                vals[pn] = v
+            a_p = {n: T.tnorm(gt(vals[n])) for n in names}
+            if got_args == a_p and tok_only and got_ret == exp_ret:
+                for kname, _ in problems:
+                    if kname != "yield-cover" or p > 0:
+                        cause_of.setdefault(kname, "sampled_midlife_start")
                 break
     for kname, msg in problems:
         clause = prefix + "." + kname if not sampled else prefix + ".subset-faithful"
